@@ -45,7 +45,7 @@ CHECKS = {
         note=TRUST + "The seekable reader's own fidelity is established by C01/C03.",
         tech="deterministic simulation: seeded histories of partial consumption on a simulated non-seekable stream vs the seekable reader"),
     "C11": dict(level="fault_enumeration", ref="DESIGN.md §4 C11",
-        text="For each seeded program (writer sequences incl. append/raw copy/extra data/encryption; open+read-all incl. ZIP64/ZipCrypto/AES/junk prefix; streaming reader) a failure-free run, then one run per I/O call index k and fault kind (hard error, sticky error, EINTR, zero-length write, early EOF) with the fault at k; remaining operations, retried reads on the failed entry, finish and Drop still run. Oracle: no panic/abort/hang; some call reported an error OR the outcome equals the failure-free run semantically; and if finish() reports success after an error was reported, the archive is structurally valid and lists no entry whose creating call failed.",
+        text="For each seeded program (writer sequences incl. append/raw copy/extra data/encryption; open+read-all incl. ZIP64/ZipCrypto/AES/junk prefix, comparing names, comments, extra data, counts and contents; the streaming loop; the streaming visitor with its central metadata) a failure-free run, then one run per I/O call index k and fault kind (hard error, sticky error, EINTR, zero-length write, early EOF) with the fault at k; remaining operations, retried reads on the failed entry, finish and Drop still run. Oracle: no panic/abort/hang; some call reported an error OR the outcome equals the failure-free run semantically; and if finish() reports success after an error was reported, the archive is structurally valid and lists no entry whose creating call failed.",
         note=TRUST + "k is enumerated completely when the failure-free run has <= 400 I/O calls, otherwise first/last 100 plus a seeded sample; pairs of faults in the thorough tier.",
         tech="deterministic simulation: fault enumeration over every I/O call index of seeded programs"),
     "C12": dict(level="exploration", ref="DESIGN.md §4 C12, Appendix C",
